@@ -256,7 +256,11 @@ class Oracle(object):
       self.checked += 1
       m.cov["restart_checks"] += 1
     elif kind == "query" and ev.get("outcome") not in (None, "skip"):
-      if h.n_ok_fits == 0 and h.n_interrupted == 0 and op["method"] != "metric_call":
+      # after a rejected fit the object carries preprocessor_ (possibly None): indicator input is
+      # then itself invalid and may legitimately be rejected with ValueError before the fitted
+      # check, so only formed (always valid) query data is judged in that case
+      judged = h.n_fits == 0 or ev.get("via") == "formed" or op["method"] == "get_mahalanobis_matrix"
+      if h.n_ok_fits == 0 and h.n_interrupted == 0 and op["method"] != "metric_call" and judged:
         # no fit has ever returned on this object (never fitted, or every fit
         # so far was rejected): it is a not-yet-fitted estimator
         if ev["outcome"] != "exc:NotFittedError":
